@@ -257,12 +257,18 @@ class Check:
             self.states += res.distinct
             self.transitions += res.generated
             acc = set(res.tagged.get('ACCEPT', []))
+            prog = {}
+            for t, lv in res.tagged.get('PROG', []):
+                if lv > prog.get(t, 0):
+                    prog[t] = lv
             for j in range(len(part)):
                 if (j + 1) in acc:
                     accepted.add(base + j)
                 else:
                     diag = None
-                    if diag_cfg and len(rejected) < max_diag:
+                    if (j + 1) in prog:
+                        diag = [{'explained_events': prog[j + 1] - 1}]
+                    elif diag_cfg and len(rejected) < max_diag:
                         r2 = self.tlc(module, diag_cfg, workers=1, env={'TRACE_FILE': path, 'TRACE_ONLY': j + 1},
                                       coverage=False, timeout=timeout, expect='any', count_states=False)
                         diag = r2.tagged.get('DIAG', [])[-3:]
